@@ -56,7 +56,10 @@ CHECKS["C32"] = _c("guard analysis of the PruneConfigFalse iterator (write gated
 CHECKS["C28"] = _c("interval evaluation of fieldTag's comparisons, string-only backward slice of hashed inputs, must-precede collision check at the single render site, scan of the golden .proto corpus",
     "Decides that fieldTag returns only valid unreserved field numbers, that hashed inputs are schema strings only, that every message (oneof members included) and every identity enum is checked for repeated numbers with an error on collision, that explicit key tags increase per key, that the key/list name clash guard compares the emitted names, and that all golden .proto files are well-formed.")
 
-for _p in ["C15","C22","C24","C25","C26","C27","C29","C33","C34"]:
+CHECKS["C24"] = _c("writer/reader type-table agreement over protomap's type switches (go/types identity), enum-number-vs-index lint, comma-ok key-presence lint, value flow of result-map keys",
+    "Decides that each Go type PathsFromProto stores per field kind is one the matching ProtoFromPaths decoder accepts (wrapper scalars, enums, leaf-lists, union leaf-list members, list keys), that enum descriptors are selected by number, that key presence is a comma-ok test, and that every emitted path is resolvedPath(base, schemapath annotation).")
+
+for _p in ["C15","C22","C25","C26","C27","C29","C33","C34"]:
     NA[_p] = NOT_YET
 NA["C10"] = "quantifies over runtime trees, paths and payloads; its structural clauses (key and value tables) are decided under C16/C18 and the frame clause has no static handle here (DESIGN.md §7)"
 NA["C23"] = "classification of runtime leaves after single-leaf edits; no clause visible in code shape beyond those claimed under C22 (DESIGN.md §7)"
